@@ -28,8 +28,9 @@ check('C20', 'uuid',
       'every string of length <= L+1 replayed on the real functions (patched module constants), plus TLC trace '
       'validation of boundary-directed and random 128-bit cases (incl. families congruent modulo 2^61-1 / 2^64 / 2^32, encoded in one process) against the same loops on limb numbers. Unit tests '
       'sample a handful of UUIDs; this covers all inputs of the scaled instances and all rejection classes.',
-      'Trusted: TLC, the limb arithmetic (checked against Naturals for a small limb base), patching module constants '
-      'keeps the code paths. Real-size domain is sampled (2^128 values), not exhaustive.',
+      'Trusted: TLC, the limb arithmetic (checked against Naturals for a small limb base); the alphabet is the one the public interface shows '
+      '(first character of the encodings of 0..56).  The scaled-down instances patch module constants and run only while the module has the shape they assume '
+      '(checked at run time; otherwise they are skipped with a DRIFT line).  Real-size domain is sampled (2^128 values), not exhaustive.',
       'DESIGN.md section 4, C20')
 
 ENGINES['cli'] = ('specs/cli', ['C19'], 'ArgGraph.tla (declaration-list builder, registration-loop I-spec, Accepts A-spec), '
@@ -150,7 +151,8 @@ check('C16', 'http',
       'acquisition and enumerates all schedules by stateless DFS (a removed or narrowed lock just yields more '
       'schedules); each execution trace (loads, stores, lock events, ids handed to the opener) is judged by TLC: ids '
       'distinct, gap free up to the numbers lost to failed requests, caller ids (strings, 0, empty, set by a request adapter) untouched, also when all requests share one caller headers dict, for all five verbs, through plain, basic-auth, client-auth and token-auth connections derived from one base, and with a transport that drops a connection once (verdict) and the event sequence is a behaviour of ReqId (drift).  Bounded lock waits are modelled as attempts that may fail.',
-      'Trusted: TLC, CPython 3.12 sys.monitoring, the cooperative lock shim. Instructions other than shared accesses '
+      'Trusted: TLC, CPython 3.12 sys.monitoring, the cooperative lock shim; requests are taken at urllib.request.OpenerDirector.open; the shared state is '
+      'what a connection and a connection derived from it have in common (no private name is used). Instructions other than shared accesses '
       'are thread local.  Quick tier caps the schedules per configuration (evidence says when the cap was hit).',
       'DESIGN.md section 4, C16')
 check('C17', 'http',
@@ -164,7 +166,7 @@ check('C17', 'http',
       'compared with the spec: address, path segments for an absolute and a relative request path (inner prefixes outermost), url-encoded params, exactly one '
       'Authorization header that decodes (credentials chosen so that + and / occur in the base64 form, login names with a latin-1 character) to the configured credentials, adapter and caller headers, response processors in reverse order (one of them returns a falsy value), body '
       'encoding, caller objects unchanged.',
-      'Trusted: TLC; opener replaced by a recorder. One auth layer per chain; paths start with "/"; tuples of '
+      'Trusted: TLC; requests are taken at urllib.request.OpenerDirector.open. One auth layer per chain; paths start with "/"; tuples of '
       'adapters not exercised.',
       'DESIGN.md section 4, C17')
 
